@@ -11,7 +11,7 @@ Section Rules.
   Variable K : oracles num.
   Variable minpos : num.
 
-  Local Notation try_as_spdc := (try_as_spdc o U K minpos).
+  Local Notation try_as_spdc := (try_as_spdc_steps o U K minpos).
   Local Notation signal_step := (signal_step o K).
   Local Notation poling_step := (poling_step o K minpos).
   Local Notation theta_step := (theta_step o K).
@@ -42,7 +42,7 @@ Section Rules.
 
   Theorem rule_signal_angles c : angle_spec_bad (c_signal c) -> try_as_spdc c = Err EThetaSpec.
   Proof.
-    intros H. unfold Config.try_as_spdc, Config.signal_step. rewrite (beam_of_cfg_bad _ _ _ H). reflexivity.
+    intros H. unfold Config.try_as_spdc_steps, Config.signal_step. rewrite (beam_of_cfg_bad _ _ _ H). reflexivity.
   Qed.
 
   (* the signal's wavelength and polarization after the signal step are those of the configuration *)
@@ -63,7 +63,7 @@ Section Rules.
     signal_step c = Ok signal -> poling_step c signal = Ok (pp, nf) ->
     try_as_spdc c = Err EAutoThetaWithPoling.
   Proof.
-    intros Ht Hp Hs Hpp. unfold Config.try_as_spdc. rewrite Hs. cbn [bind]. rewrite Hpp. cbn [bind fst].
+    intros Ht Hp Hs Hpp. unfold Config.try_as_spdc_steps. rewrite Hs. cbn [bind]. rewrite Hpp. cbn [bind fst].
     unfold Config.theta_step. rewrite Ht. cbn [is_auto].
     assert (Hoff : is_pol_off pp = false).
     { revert Hpp. unfold Config.poling_step, poling_of_cfg. destruct (c_pp c) as [| per a]; [congruence |].
@@ -80,11 +80,11 @@ Section Rules.
   Theorem rule_auto_theta_with_poling_never_ok c :
     cc_theta_deg (c_crystal c) = Auto -> c_pp c <> PCOff -> is_ok (try_as_spdc c) = false.
   Proof.
-    intros Ht Hp. unfold Config.try_as_spdc.
+    intros Ht Hp. unfold Config.try_as_spdc_steps.
     destruct (signal_step c) as [signal | |] eqn:Hs; cbn [bind is_ok]; try reflexivity.
     destruct (poling_step c signal) as [[pp nf] | |] eqn:Hpp; cbn [bind is_ok]; try reflexivity.
     pose proof (rule_auto_theta_with_poling c signal pp nf Ht Hp Hs Hpp) as H.
-    unfold Config.try_as_spdc in H. rewrite Hs in H. cbn [bind] in H. rewrite Hpp in H. cbn [bind] in H.
+    unfold Config.try_as_spdc_steps in H. rewrite Hs in H. cbn [bind] in H. rewrite Hpp in H. cbn [bind] in H.
     rewrite H. reflexivity.
   Qed.
 
@@ -113,7 +113,7 @@ Section Rules.
         end
     end.
   Proof.
-    intros Hs Hle. unfold Config.try_as_spdc. rewrite Hs. cbn [bind].
+    intros Hs Hle. unfold Config.try_as_spdc_steps. rewrite Hs. cbn [bind].
     unfold Config.poling_step, poling_of_cfg.
     destruct (c_pp c) as [| per a].
     - cbn [bind fst]. unfold Config.theta_step. cbn [is_pol_off].
@@ -148,7 +148,7 @@ Section Rules.
     nltb o (cs_length (cfg_cs0 c)) p = true ->
     try_as_spdc c = Err EImpossiblePeriod.
   Proof.
-    intros Hs Hp Hle Hz Hnm Hlt. unfold Config.try_as_spdc. rewrite Hs. cbn [bind].
+    intros Hs Hp Hle Hz Hnm Hlt. unfold Config.try_as_spdc_steps. rewrite Hs. cbn [bind].
     unfold Config.poling_step, poling_of_cfg. rewrite Hp. unfold optimum_poling_period.
     fold (Config.cfg_pump o c). fold (Config.cfg_cs0 o c). rewrite Hle, Hz, Hnm, Hlt. reflexivity.
   Qed.
@@ -174,7 +174,7 @@ Section Rules.
     (forall signal, signal_step c = Ok signal -> le_pump signal (cfg_pump c) = false) ->
     is_panic (try_as_spdc c) = false.
   Proof.
-    intros Htot Hle. pose proof Htot as [H1 [H2 [H3 H4]]]. unfold Config.try_as_spdc.
+    intros Htot Hle. pose proof Htot as [H1 [H2 [H3 H4]]]. unfold Config.try_as_spdc_steps.
     pose proof (beam_of_cfg_no_panic (signal_polarization (cs_pm (cfg_cs0 c))) (c_signal c) (cfg_cs0 c) Htot) as Hsp.
     fold (Config.signal_step o K c) in Hsp.
     destruct (signal_step c) as [signal | |] eqn:Hs; cbn [bind is_panic] in *; try reflexivity; try discriminate.
@@ -207,7 +207,7 @@ Section Rules.
                     (s = SiteOptThetaUnwrap \/ s = SiteComputeSignUnwrap \/ s = SiteOptPeriodUnwrap))
     \/ s = SiteNelderMeadUnwrap.
   Proof.
-    unfold Config.try_as_spdc.
+    unfold Config.try_as_spdc_steps.
     destruct (signal_step c) as [signal | |] eqn:Hs; cbn [bind]; try discriminate.
     2:{ revert Hs. unfold Config.signal_step, beam_of_cfg, set_theta_external.
         destruct (bc_theta_deg _), (bc_theta_ext_deg _); try discriminate.
